@@ -46,15 +46,32 @@ class Pair(object):
         shutil.rmtree(self.dir, ignore_errors=True)
 
 
+WATCH = []        # the filter sets attached to the sources of the current history: a read must leave every one of them as it was
+
+
+def watch(*sources):
+    for x in sources:
+        fs = getattr(x, "filters", None)
+        if fs is not None and not any(fs is w for w in WATCH):
+            WATCH.append(fs)
+        src = getattr(x, "source", None)
+        if src is not None and src is not x:
+            watch(src)
+        for m in getattr(x, "data_sources", []) or []:
+            watch(m)
+
+
 def read_line(tid, op, store_name, listed, ref, call, id_=0, filters=(), nav=None, obj=None, extra=None):
+    before = [sorted(map(repr, fs)) for fs in WATCH]
     try:
         out = call()
         exc = "none"
     except Exception as e:  # noqa
         out, exc = [], type(e).__name__
+    filters_kept = before == [sorted(map(repr, fs)) for fs in WATCH]
     ans, same = D.answer(out, ref)
     line = {"tid": tid, "op": op, "store": store_name, "S": list(listed), "id": id_, "filters": [dict(f, val=sorted(f["val"]) if f["op"] == "in" else f["val"]) for f in filters],
-            "nav": nav or {"rtype": 0, "src_only": False, "tgt_only": False}, "obj": obj or D.mk(21, 1), "ans": ans, "same_content": same, "exc": exc}
+            "nav": nav or {"rtype": 0, "src_only": False, "tgt_only": False}, "obj": obj or D.mk(21, 1), "ans": ans, "same_content": same, "exc": exc, "filters_kept": filters_kept}
     if extra:
         line.update(extra)
     return line
@@ -265,6 +282,8 @@ def pipeline(chk):
             if recs and rng.random() < 0.5:       # a re-addition of something already there
                 pair.add(rng.choice(["object", "dict"]) if recs[0]["type"] != D.T_UNREG else "dict", [recs[0]], rng)
             tid = 400000 + h
+            del WATCH[:]
+            watch(pair.mem, pair.fs)
             ids = sorted({r["id"] for r in recs})
             for name, store in (("memory", pair.mem), ("fs", pair.fs)):
                 listed = pair.listed["mem" if name == "memory" else "fs"]
@@ -321,6 +340,7 @@ def pipeline(chk):
                         union.append(r)
             ref = {(r["id"], r["ver"]): D.build(r) for r in union}
             env = Environment(source=comp)
+            watch(comp, *members)
             for front_name, front in (("composite", comp), ("environment", env)):
                 for id_ in ids[:4]:
                     lines.append(read_line(tid, "cget", front_name, union, ref, lambda: front.get(D.sid(id_)), id_=id_, extra={"member_order": order}))
@@ -375,6 +395,7 @@ def pipeline(chk):
             # must not stay attached to the nested composite, and taking the filter off the parent restores the parent's answers
             outer = CompositeDataSource()
             outer.add_data_sources([comp])
+            watch(outer)
             env2 = Environment(source=comp)
             for parent_name, parent, addf in (("nested-composite", outer, lambda fs: outer.filters.add(fs)), ("environment-filter", env2, lambda fs: [env2.add_filter(f) for f in fs])):
                 oatt = [rand_filter(rng, recs)]
